@@ -113,6 +113,22 @@ def second_pass_menu(KR, KQ, nrefs):
     return m
 
 
+def any_row(E, KR, KQ, rev, label, qlabels=None, max_pairs=3):
+    """engine-chosen valid matching: 1..max_pairs pairs, ascending reference labels, monotone query labels, optionally two segments"""
+    m = E.choose(list(range(1, max_pairs + 1)), f"{label}-pairs")
+    qs = qlabels if qlabels is not None else list(range(1, KQ + 1))
+    ridx = [E.choose(range(1, KR + 1), f"{label}-ref")]
+    qpos = [E.choose(range(len(qs)), f"{label}-qry")]
+    for _ in range(m - 1):
+        ridx.append(E.choose(range(ridx[-1] + 1, KR + 1), f"{label}-ref"))
+        qpos.append(E.choose(range(0, qpos[-1]) if rev else range(qpos[-1] + 1, len(qs)), f"{label}-qry"))
+    qidx = [qs[k] for k in qpos]
+    cut = E.choose(range(0, m), f"{label}-split")
+    if cut:
+        return (0, rev, [ridx[:cut], ridx[cut:]], [qidx[:cut], qidx[cut:]])
+    return (0, rev, ridx, qidx)
+
+
 def build_world(E, cfg):
     KR, KQ, nq, nrefs = cfg["KR"], cfg["KQ"], cfg["nq"], cfg.get("nrefs", 1)
     refs = []
@@ -135,10 +151,14 @@ def build_world(E, cfg):
     allowed_s = [n for n in cfg.get("second", list(sp_menu)) if n in sp_menu]
     first_choice = {}
     for qm in queries:
-        first_choice[qm.moleculeId] = fp_menu[E.choose(allowed_f, f"first-pass-row-of-{qm.moleculeId}")]      # index -1 = last entry
+        name = E.choose(allowed_f + [n for n in cfg.get("first", []) if n in ("any+", "any-")], f"first-pass-row-of-{qm.moleculeId}")
+        if name in ("any+", "any-"):
+            first_choice[qm.moleculeId] = any_row(E, min(KR, 5), min(KQ, 6), name == "any-", f"first-{qm.moleculeId}")
+        else:
+            first_choice[qm.moleculeId] = fp_menu[name]
     second_choice = {}   # decided lazily per fragment (keyed by molecule id and fragment shift/size) but once per path
     return dict(refs=refs, queries=queries, su=su, maxDiff=maxDiff, first_choice=first_choice, second_choice=second_choice,
-                sp_menu=sp_menu, allowed_s=allowed_s, E=E)
+                sp_menu=sp_menu, allowed_s=allowed_s, any_s=[n for n in cfg.get("second", []) if n in ("any+", "any-")], E=E)
 
 
 def generated_execute(world, log):
@@ -156,7 +176,13 @@ def generated_execute(world, log):
             else:
                 key = (m.moleculeId, m.shift, len(m.positions))
                 if key not in world["second_choice"]:
-                    world["second_choice"][key] = world["sp_menu"][E.choose(world["allowed_s"], f"second-pass-row-of-{key}")]
+                    name = E.choose(world["allowed_s"] + world["any_s"], f"second-pass-row-of-{key}")
+                    if name in ("any+", "any-"):
+                        labels = sorted(p.siteId for p in m.getPositionsWithSiteIds())
+                        world["second_choice"][key] = any_row(E, min(len(referenceMaps[0].positions), 5), 0, name == "any-",
+                                                              f"second-{key[0]}-{key[1]}", qlabels=labels[:6], max_pairs=2)
+                    else:
+                        world["second_choice"][key] = world["sp_menu"][name]
                 ch = world["second_choice"][key]
                 tag = f"s{m.moleculeId}_{m.shift}_{len(m.positions)}"
             if ch is None:
@@ -271,6 +297,9 @@ def multipass_configs(tier):
         cfgs.append(dict(KR=6, KQ=9, nq=1, nrefs=1))
         cfgs.append(dict(KR=6, KQ=10, nq=1, nrefs=1))
         cfgs.append(dict(KR=6, KQ=6, nq=2, nrefs=2, first=["start+", "end-", "ref2-start+"], second=["none", "continue+", "other-strand", "ref2+"]))
+        # engine-chosen records: any valid matching of <= 3 pairs (one or two segments) in the first pass, <= 2 pairs on the fragment
+        cfgs.append(dict(KR=5, KQ=6, nq=1, nrefs=1, first=["any+"], second=["none", "any+"]))
+        cfgs.append(dict(KR=5, KQ=6, nq=1, nrefs=1, first=["any-"], second=["none", "any-"]))
     return cfgs
 
 
@@ -439,42 +468,50 @@ def oracle_c07(E, world, res):
     E.check("checked", True)
 
 
+_REF = {"proc": None}
+
+
+def reference_outcome(cfg, snap):
+    """what the frozen tree /verif/reference writes for this concrete input (persistent helper process, one per worker)"""
+    import json
+    import subprocess
+    import sys as _sys
+    from symx.runner import jsonable, VERIF
+    import os as _os
+    if _REF["proc"] is None or _REF["proc"].poll() is not None:
+        env = dict(_os.environ)
+        env.pop("SYMX_TWIN", None)
+        _REF["proc"] = subprocess.Popen([_sys.executable, "-B", _os.path.join(VERIF, "tools", "ref_server.py")], stdin=subprocess.PIPE,
+                                        stdout=subprocess.PIPE, stderr=subprocess.DEVNULL, text=True, env=env)
+    pr = _REF["proc"]
+    pr.stdin.write(json.dumps({"cfg": cfg, "snapshot": jsonable(snap)}) + "\n")
+    pr.stdin.flush()
+    return json.loads(pr.stdout.readline())
+
+
 def classify_c08(cfg, snap, failures, out):
-    """Known finding 'join-keeps-higher-scoring-cut-over-union': the only failing clause is 'joined == union when the union is valid', every
-    joined record is still a subset of the union, and its Confidence is at least that of the union-preserving alternative (all pairs of
-    the earlier part that lie strictly before the later part's first pair, plus the whole later part) -- i.e. the merge-point rule
-    preferred a higher-scoring cut to the union.  Anything else (a joined record scoring *less* than the union-preserving join,
-    other clauses) is not this finding."""
-    from fractions import Fraction
+    """Known finding 'join-merge-point-is-not-the-union': the ONLY failing clause is 'joined == union when the union is a valid
+    matching' and the frozen reference tree (/verif/reference = pinned commit + fix: commits) writes exactly the same records in all four
+    modes for this input.  A change that makes any file differ from the reference on the failing input, or that breaks another
+    clause, is not this finding and is reported as a VIOLATION."""
     if set(failures) != {"when-the-union-is-a-valid-matching-the-joined-record-is-exactly-the-union"}:
         return None
     try:
-        J, S = out["joined"], out["separate"]
-        first, second = S["main"], S["files"].get("_1", [])
-        sc = dict(S["scores"])
-        sc.update(out["all"]["scores"])
-        num = lambda v: Fraction(v) if isinstance(v, str) else Fraction(v)
-        for j in J["main"]:
-            key3 = tuple(j[:3])
-            fs = [f for f in first if tuple(f[:3]) == key3]
-            ss = [x for x in second if tuple(x[:3]) == key3]
-            if len(fs) != 1 or len(ss) != 1:
+        import json
+        from symx.runner import jsonable
+        out = json.loads(json.dumps(jsonable(out)))
+        ref = reference_outcome(cfg, snap)
+        if "error" in ref:
+            return None
+        for mode in MODES:
+            mine = out[mode]
+            if isinstance(mine, list) or isinstance(ref[mode], list):
                 return None
-            f, x = fs[0], ss[0]
-            pf = sc[repr(tuple(f[:4]) + (tuple(tuple(p) for p in f[4]),))]
-            px = sc[repr(tuple(x[:4]) + (tuple(tuple(p) for p in x[4]),))]
-            jp = [tuple(p) for p in j[4]]
-            union = sorted({tuple(p[:2]) for p in pf} | {tuple(p[:2]) for p in px})
-            if sorted(jp) == union:
-                continue
-            left, right = (pf, px) if pf[0][0] <= px[0][0] else (px, pf)
-            rev = j[2] == "-"
-            r0, q0 = right[0][0], right[0][1]
-            before = [p for p in left if p[0] < r0 and ((p[1] > q0) if rev else (p[1] < q0))]
-            alt = sum((num(p[2]) for p in before), Fraction(0)) + sum((num(p[2]) for p in right), Fraction(0))
-            if num(j[5]) < alt:
+            if [r[:5] for r in mine["main"]] != ref[mode]["main"]:
                 return None
-        return "join-keeps-higher-scoring-cut-over-union"
+            if {k: v for k, v in mine["files"].items()} != ref[mode]["files"]:
+                return None
+        return "join-merge-point-is-not-the-union"
     except Exception:  # noqa
         return None
 
